@@ -38,6 +38,7 @@ const char *vf_name = "c14_node";
 #define MAXN     160
 #define MAXM     256
 #define LIVE_MAX 24
+#define GMAX     4096
 
 /* ------------------------------------------------------------- metatypes */
 struct hmeta {
@@ -216,7 +217,7 @@ static void check_structure(const char *op)
 	for (i = 0; i < nn; i++) {
 		if (!N[i].alive) continue;
 		MPT_STRUCT(node) *n = N[i].n;
-		if (POISONED(n) && !N[i].foreign)
+		if (POISONED(n))
 			vf_fail(K(op, "freed-live-node"), "node %d was freed although it was not destroyed by the caller", i);
 		const MPT_STRUCT(node) *l[4] = { n->next, n->prev, n->parent, n->children };
 		static const char *ln[4] = { "next", "prev", "parent", "children" };
@@ -252,9 +253,11 @@ static void check_structure(const char *op)
 /* membership against the model */
 static void check_model(const char *op)
 {
-	int gmap[MAXN * 2 + 8];
+	static int gmap[GMAX];
+	int hgrp[MAXN];
 	int i;
-	for (i = 0; i < next_grp && i < (int) (sizeof(gmap) / sizeof(*gmap)); i++) gmap[i] = -1;
+	for (i = 0; i < next_grp; i++) gmap[i] = -1;
+	for (i = 0; i < nn; i++) hgrp[i] = -1;
 	for (i = 0; i < nn; i++) {
 		if (!N[i].alive) continue;
 		int ap = N[i].n->parent ? idx_of(N[i].n->parent) : -1;
@@ -266,13 +269,10 @@ static void check_model(const char *op)
 		else if (gmap[g] != headof[i])
 			vf_fail(K(op, "membership-list"), "top-level node %d %s is in the list of %d, its expected list mates are in the list of %d",
 			        i, nname(N[i].n), headof[i], gmap[g]);
-	}
-	/* two model lists must not have been joined */
-	for (i = 0; i < next_grp; i++) {
-		if (gmap[i] < 0) continue;
-		for (int j = i + 1; j < next_grp; j++)
-			if (gmap[j] == gmap[i])
-				vf_fail(K(op, "membership-joined"), "two separate top-level lists are now one (head %d)", gmap[i]);
+		/* two model lists must not have been joined */
+		if (hgrp[headof[i]] < 0) hgrp[headof[i]] = g;
+		else if (hgrp[headof[i]] != g)
+			vf_fail(K(op, "membership-joined"), "two separate top-level lists are now one (head %d)", headof[i]);
 	}
 	vf_count("monitor:membership-compares", 1);
 }
@@ -290,7 +290,7 @@ static void adopt(void)
 			N[i].grp = hg[h];
 		}
 	}
-	if (next_grp > MAXN * 2) vf_inconclusive("group ids exhausted");
+	if (next_grp > GMAX - 64) vf_inconclusive("group ids exhausted");
 }
 static void check_all(const char *op)
 {
@@ -342,7 +342,7 @@ static MPT_STRUCT(node) *head_of(MPT_STRUCT(node) *n)
 static int subtree_size(const MPT_STRUCT(node) *n, int *withmeta)
 {
 	int c = 1;
-	if (n->_meta) ++*withmeta;
+	if (n->_meta && meta_index(n->_meta) >= 0) ++*withmeta;
 	for (const MPT_STRUCT(node) *k = n->children; k; k = k->next) c += subtree_size(k, withmeta);
 	return c;
 }
@@ -440,7 +440,8 @@ static int op_attach(vf_rng *r, int kind)
 		N[ins].par = N[pos].par; N[ins].grp = N[pos].grp;
 		break;
 	case 2: case 3:
-		if (!vf_chance(r, 1, 4)) pn = head_of(pn);
+		/* `first` is the list head; a later member only for "append" (as mpt_node_move does) */
+		if (arg || !vf_chance(r, 1, 3)) pn = head_of(pn);
 		vf_log("%s(%d, %d, %d)", cur_op, idx_of(pn), arg, ins);
 		ret = (kind == 2) ? mpt_gnode_add(pn, arg, in) : mpt_node_add(pn, arg, in);
 		VF_CHECK(ret == in, K(cur_op, "return"), "returned %p instead of the added node", (void *) ret);
@@ -478,7 +479,7 @@ static int op_destroy(vf_rng *r)
 	if (i < 0) return 0;
 	if (vf_chance(r, 1, 2)) { int j = pick(r, p_isolated, 0); if (j >= 0) i = j; }
 	MPT_STRUCT(node) *n = N[i].n, *ret;
-	int linked = !is_isolated(i);
+	int linked = !is_isolated(i), hadsub = n->children != 0;
 	cur_op = "node_destroy";
 	vf_at("mpt_node_destroy");
 	vf_count("mpt_node_destroy", 1);
@@ -492,7 +493,7 @@ static int op_destroy(vf_rng *r)
 		return 1;
 	}
 	VF_CHECK(ret == 0, K(cur_op, "refused-unlinked"), "returned %p for unlinked node %d", (void *) ret, i);
-	if (n->children) vf_count("state:destroy-with-subtree", 1);
+	if (hadsub) vf_count("state:destroy-with-subtree", 1);
 	release_subtree(cur_op, i, 1);
 	return 1;
 }
@@ -513,8 +514,8 @@ static int op_clear(vf_rng *r)
 }
 
 /* ------------------------------------------------------------------ clone */
-static void compare_list(const char *op, const MPT_STRUCT(node) *s, MPT_STRUCT(node) *c, int cpar, int grp, int single);
-static void compare_node(const char *op, const MPT_STRUCT(node) *s, MPT_STRUCT(node) *c, int cpar, int grp)
+static void compare_list(const char *op, const MPT_STRUCT(node) *s, MPT_STRUCT(node) *c, int cpar, int grp, int single, int shallow);
+static void compare_node(const char *op, const MPT_STRUCT(node) *s, MPT_STRUCT(node) *c, int cpar, int grp, int shallow)
 {
 	int si = idx_of(s), m = -1;
 	VF_CHECK(idx_of(c) < 0, K(op, "clone-is-existing-node"), "copy of node %d is the existing node %d", si, idx_of(c));
@@ -528,34 +529,46 @@ static void compare_node(const char *op, const MPT_STRUCT(node) *s, MPT_STRUCT(n
 		VF_CHECK(!c->_meta, K(op, "clone-value"), "copy of node %d without value has a value", si);
 	} else {
 		int sm = meta_index(s->_meta);
-		m = c->_meta ? meta_index(c->_meta) : -1;
-		VF_CHECK(m >= 0, K(op, "clone-value"), "copy of node %d has %s", si, c->_meta ? "a foreign metatype" : "no value");
-		VF_CHECK(m != sm, K(op, "clone-shares-value"), "copy of node %d holds the same metatype instance without a reference", si);
+		VF_CHECK(c->_meta != 0, K(op, "clone-value"), "copy of node %d has no value", si);
+		VF_CHECK(c->_meta != s->_meta, K(op, "clone-shares-value"), "copy of node %d holds the same metatype instance without a reference", si);
+		m = meta_index(c->_meta);
 		if (sm >= 0) {
+			VF_CHECK(m >= 0, K(op, "clone-value"), "copy of node %d has a metatype that did not come from the value's clone()", si);
 			VF_CHECK(metas[m].clone_of == sm && !metas[m].unrefs, K(op, "clone-value"), "copy of node %d: metatype %d is a clone of %d (releases %d), expected clone of %d",
 			         si, m, metas[m].clone_of, metas[m].unrefs, sm);
 			VF_CHECK(metas[m].vlen == metas[sm].vlen && !memcmp(metas[m].val, metas[sm].val, sizeof(metas[m].val)),
 			         K(op, "clone-value"), "copy of node %d: value bytes differ", si);
+			for (int j = 0; j < nn; j++)
+				if (N[j].alive && N[j].meta == m) vf_fail(K(op, "clone-shares-value"), "copy of node %d holds the metatype of node %d", si, j);
+		} else {
+			/* value made by the library (parsed text): compare the text */
+			size_t l1 = 0, l2 = 0;
+			const char *d1 = mpt_node_data(s, &l1), *d2 = mpt_node_data(c, &l2);
+			VF_CHECK(m < 0, K(op, "clone-value"), "copy of node %d with library value holds a harness metatype", si);
+			VF_CHECK(!d1 == !d2 && l1 == l2 && (!d1 || !memcmp(d1, d2, l1)), K(op, "clone-value"), "copy of node %d: text value differs ('%.20s' len %zu / '%.20s' len %zu)",
+			         si, d1 ? d1 : "(null)", l1, d2 ? d2 : "(null)", l2);
 		}
-		for (int j = 0; j < nn; j++)
-			if (N[j].alive && N[j].meta == m) vf_fail(K(op, "clone-shares-value"), "copy of node %d holds the metatype of node %d", si, j);
 	}
-	VF_CHECK(c->parent == (cpar >= 0 ? N[cpar].n : 0), K(op, "clone-parent"), "copy of node %d (depth>0: %d) has parent %p, expected %s",
-	         si, cpar >= 0, (void *) c->parent, cpar >= 0 ? "the copy of its parent" : "none");
-	int slot = slot_new(c, m, s->_meta && meta_index(s->_meta) < 0, cpar, grp);
-	VF_CHECK(!s->children == !c->children, K(op, "clone-children"), "node %d %s children, its copy %s", si,
-	         s->children ? "has" : "has no", c->children ? "has" : "has none");
-	if (s->children) compare_list(op, s->children, c->children, slot, grp, 0);
+	VF_CHECK(c->parent == (cpar >= 0 ? N[cpar].n : 0), K(op, "clone-parent"), "copy of node %d %s has parent %p, expected %s",
+	         si, nname(s), (void *) c->parent, cpar >= 0 ? "the copy of its parent" : "none");
+	int slot = slot_new(c, m, s->_meta && m < 0, cpar, grp);
+	if (shallow) {
+		VF_CHECK(!c->children, K(op, "clone-children"), "shallow copy of node %d has children", si);
+	} else {
+		VF_CHECK(!s->children == !c->children, K(op, "clone-children"), "node %d %s children, its copy %s", si,
+		         s->children ? "has" : "has no", c->children ? "has" : "has none");
+		if (s->children) compare_list(op, s->children, c->children, slot, grp, 0, 0);
+	}
 	vf_count("monitor:clone-node-compares", 1);
 }
-static void compare_list(const char *op, const MPT_STRUCT(node) *s, MPT_STRUCT(node) *c, int cpar, int grp, int single)
+static void compare_list(const char *op, const MPT_STRUCT(node) *s, MPT_STRUCT(node) *c, int cpar, int grp, int single, int shallow)
 {
 	MPT_STRUCT(node) *prev = 0;
 	for (;;) {
 		if (!s && !c) break;
-		VF_CHECK(s && c, K(op, "clone-length"), "%s list ends early (below copy of parent slot %d)", s ? "copied" : "source", cpar);
+		VF_CHECK(s && c, K(op, "clone-length"), "%s list ends early (below copy slot %d)", s ? "copied" : "source", cpar);
 		VF_CHECK(c->prev == prev, K(op, "clone-prev"), "copy of node %d: prev does not point to the copy of the predecessor", idx_of(s));
-		compare_node(op, s, c, cpar, grp);
+		compare_node(op, s, c, cpar, grp, shallow);
 		prev = c;
 		if (single) { VF_CHECK(!c->next, K(op, "clone-length"), "single copy has a successor"); break; }
 		s = s->next; c = c->next;
@@ -570,7 +583,7 @@ static int op_clone(vf_rng *r, int kind)
 	MPT_STRUCT(node) *n = N[i].n, *ret;
 	if (kind == 1 && vf_chance(r, 2, 3)) { n = head_of(n); i = idx_of(n); }
 	int size = 0, wm = 0, depth2 = 0;
-	if (kind == 0) { size = 1; wm = n->_meta ? 1 : 0; }
+	if (kind == 0) { size = 1; wm = (n->_meta && meta_index(n->_meta) >= 0) ? 1 : 0; }
 	else if (kind == 2) size = subtree_size(n, &wm);
 	else for (const MPT_STRUCT(node) *k = n; k; k = k->next) size += subtree_size(k, &wm);
 	if (alive_count() + size > LIVE_MAX + 8 || nn + size > MAXN || nmetas + wm > MAXM) return 0;
@@ -578,9 +591,7 @@ static int op_clone(vf_rng *r, int kind)
 		if (kind == 1) { for (const MPT_STRUCT(node) *c = k->children; c; c = c->next) if (c->children) depth2 = 1; }
 		else if (k->children) depth2 = 1;
 	}
-	int foreign = 0;
-	for (int j = 0; j < nn; j++) if (N[j].alive && N[j].foreign) foreign = 1;
-	int fail = (wm && !foreign && vf_chance(r, 1, 6)) ? 1 + (int) vf_below(r, (uint32_t) wm) : 0;
+	int fail = (wm && vf_chance(r, 1, 6)) ? 1 + (int) vf_below(r, (uint32_t) wm) : 0;
 	cur_op = opn[kind];
 	vf_at(api[kind]);
 	vf_count(api[kind], 1);
@@ -606,13 +617,9 @@ static int op_clone(vf_rng *r, int kind)
 	VF_CHECK(!ret->parent && !ret->prev, K(cur_op, "clone-linked"), "copy is linked to parent/prev");
 	int g = next_grp++;
 	if (kind == 0) {
-		VF_CHECK(!ret->children && !ret->next, K(cur_op, "clone-linked"), "shallow copy has children or successor");
-		const MPT_STRUCT(node) *sc = n->children;
-		n->children = 0;  /* shallow: compare without children */
-		compare_list(cur_op, n, ret, -1, g, 1);
-		n->children = (MPT_STRUCT(node) *) sc;
+		compare_list(cur_op, n, ret, -1, g, 1, 1);
 	} else {
-		compare_list(cur_op, n, ret, -1, g, kind == 2);
+		compare_list(cur_op, n, ret, -1, g, kind == 2, 0);
 	}
 	VF_CHECK(nmetas - m0 == wm, K(cur_op, "clone-count"), "%d value copies made for %d values", nmetas - m0, wm);
 	if (depth2) vf_count("state:clone-depth2", 1);
@@ -687,9 +694,8 @@ static int op_move(vf_rng *r)
 	int remaining = 0;
 	for (int k = 0; k < ns; k++) {
 		MPT_STRUCT(node) *s = N[sm[k]].n;
-		int stay = (s->parent ? idx_of(s->parent) : -1) == sp && headof[sm[k]] != headof[dm[0]];
-		if (sp >= 0 && s->parent != N[sp].n) stay = 0;
-		if (sp >= 0 && s->parent == N[sp].n && dp == sp) stay = 0; /* same parent cannot happen: lists differ */
+		int stay = (s->parent ? idx_of(s->parent) : -1) == sp;
+		if (stay && sp < 0 && dp < 0 && headof[sm[k]] == headof[dm[0]]) stay = 0;
 		if (!stay) continue;
 		remaining++;
 		VF_CHECK(rest != 0, K(cur_op, "source-handle-lost"), "node %d stayed in the source list but the source list pointer is NULL", sm[k]);
@@ -959,13 +965,15 @@ static int op_parse(vf_rng *r)
 	int i = pick(r, vf_chance(r, 2, 3) ? p_has_children : 0, 0), cnt = 0, depth = 0;
 	if (i < 0 || alive_count() > LIVE_MAX - 6) return 0;
 	/* sections/options with names that overlap the population's */
-	int items = 1 + (int) vf_below(r, 5);
-	for (int k = 0; k < items && cnt < 6; k++) {
-		int what = (int) vf_below(r, depth ? 4 : 3);
-		if (what == 0) { tl += (size_t) snprintf(text + tl, sizeof(text) - tl, "%s = v%d\n", sn[vf_below(r, 4)], k); cnt++; }
-		else if (what <= 2 && depth < 2) { tl += (size_t) snprintf(text + tl, sizeof(text) - tl, "[%s]\n", sn[vf_below(r, 4)]); cnt++; depth = 1; }
-		else { tl += (size_t) snprintf(text + tl, sizeof(text) - tl, "%s = w%d\n", sn[vf_below(r, 4)], k); cnt++; }
+	int items = 1 + (int) vf_below(r, 6);
+	for (int k = 0; k < items; k++) {
+		int what = (int) vf_below(r, 4);
+		if (what == 0 && depth < 2) { tl += (size_t) snprintf(text + tl, sizeof(text) - tl, "%s {\n", sn[vf_below(r, 4)]); depth++; cnt++; }
+		else if (what == 1 && depth) { tl += (size_t) snprintf(text + tl, sizeof(text) - tl, "}\n"); depth--; }
+		else { tl += (size_t) snprintf(text + tl, sizeof(text) - tl, "%s = v%d;\n", sn[vf_below(r, 4)], k); cnt++; }
 	}
+	while (depth--) tl += (size_t) snprintf(text + tl, sizeof(text) - tl, "}\n");
+	(void) cnt;
 	struct pin in = { text, 0, tl };
 	MPT_STRUCT(parser_context) ctx = MPT_PARSER_INIT;
 	ctx.src.getc = pin_getc;
@@ -988,7 +996,7 @@ static int op_parse(vf_rng *r)
 	 * merge semantics, adopted; what is asserted is structure + release */
 	int before[MAXN], nb = 0;
 	for (int j = 0; j < nn; j++) if (N[j].alive && j != i && in_subtree(j, i)) before[nb++] = j;
-	int rc = mpt_parse_node(root, &ctx, "[ ] = !#");
+	int rc = mpt_parse_node(root, &ctx, "{*} =;!#");
 	VF_CHECK(rc >= 0, K(cur_op, "refused"), "returned %d for well-formed input", rc);
 	/* nodes of the old subtree: either still linked below root or released */
 	for (int k = 0; k < nb; k++) {
@@ -1061,7 +1069,7 @@ void vf_case(uint64_t idx, vf_rng *r)
 	for (int k = 0; k < nops; k++) {
 		int w = (int) vf_below(r, (uint32_t) wsum), op = 0, done = 0;
 		while (w >= weights[op]) w -= weights[op++];
-		if (next_grp > MAXN * 2 - 8 || nn > MAXN - 12 || nmetas > MAXM - 30) break;
+		if (next_grp > GMAX - 200 || nn > MAXN - 12 || nmetas > MAXM - 30) break;
 		switch (op) {
 		case ONew: if (alive_count() < LIVE_MAX) { new_node(r, 0); done = 1; } break;
 		case OAfter: case OBefore: case OGAdd: case ONAdd: case OGIns: case ONIns:
